@@ -280,6 +280,44 @@ def maps_not_offered(c):
     c.expect_raise('function_value_samples_of_it_cannot_be_converted_back', lambda: S.funvals.parameters)
 
 
+def forward_only_expansions(c, kind):
+    """the two expansion geometries that offer only the parameter-to-function map (KLExpansion_Full: all sine modes; CustomKL: eigenpairs of a given covariance
+    function): par2fun is LINEAR with the documented basis (affine for CustomKL with a mean) and gives values of the reported shape, a batch is mapped column by
+    column or refused, the inverse is refused (never a number), and a CUQIarray of parameters converts with the same map (native)"""
+    from cuqi.geometry import KLExpansion_Full, CustomKL
+    from cuqi.array import CUQIarray
+    n = 8; grid = np.linspace(0, 1, n)
+    if kind == 'KLExpansion_Full':
+        g = KLExpansion_Full(grid, std=1.5, cor_len=0.3, nu=2.0)
+        k = np.arange(n); tau = 1 / 0.3 ** 2; coef = tau ** 3.0 * (tau + k ** 2) ** (-3.0)
+        # documented basis: inverse of DST-II of the damped coefficients, times std^2 / pi
+        def ref(p):
+            K = np.arange(n)
+            out = np.array([sum(coef[i] * p[i] * np.sin(np.pi / n * (i + 1) * (Kk + 0.5)) for i in range(n - 1)) + ((-1) ** Kk) / 2 * coef[n - 1] * p[n - 1] for Kk in K])
+            return 1.5 ** 2 / np.pi * out
+    else:
+        g = CustomKL(grid, mean=0.7, std=1.0, cov_func=lambda x, y: np.exp(-abs(x - y) / 0.5), trunc_term=3)
+        B = np.asarray(g.eigvec) @ np.diag(np.sqrt(np.asarray(g.eigval)))
+        ref = lambda p: 0.7 + B @ p
+    m = g.par_dim
+    p = np.asarray(c.vec('p', m), dtype=float); q = np.asarray(c.vec('q', m), dtype=float)
+    f = np.asarray(g.par2fun(p), dtype=float)
+    c.holds('function_values_have_the_reported_shape', f.shape == tuple(g.fun_shape), note=f'{f.shape} vs {g.fun_shape}')
+    c.holds('par2fun_is_the_documented_expansion', bool(np.allclose(f, ref(p), rtol=1e-9, atol=1e-12)), note=f'{f} vs {ref(p)}')
+    f0 = np.asarray(g.par2fun(np.zeros(m)), dtype=float)
+    c.holds('par2fun_is_affine', bool(np.allclose(np.asarray(g.par2fun(2 * p - 3 * q), dtype=float) - f0, 2 * (f - f0) - 3 * (np.asarray(g.par2fun(q), dtype=float) - f0), rtol=1e-9, atol=1e-11)))
+    try: FB = np.asarray(g.par2fun(np.stack([p, q, p + q], axis=-1)), dtype=float)
+    except Exception: FB = None
+    if FB is not None:
+        c.holds('batch_is_mapped_column_by_column', FB.shape == f.shape + (3,) and bool(np.allclose(FB[..., 0], f) and np.allclose(FB[..., 1], g.par2fun(q)) and np.allclose(FB[..., 2], g.par2fun(p + q))), note=str(FB.shape))
+    else: c.holds('batch_is_mapped_column_by_column', True, note='refused')
+    for nm, call in (('fun2par', lambda: g.fun2par(f)), ('CUQIarray.parameters_of_function_values', lambda: CUQIarray(f, is_par=False, geometry=g).parameters)):
+        try: r = call(); ok = False
+        except NotImplementedError: ok = True; r = None
+        c.holds(f'{nm}:inverse_is_refused_not_invented', ok, note=repr(r))
+    c.holds('CUQIarray_funvals_is_par2fun', bool(np.allclose(np.asarray(CUQIarray(p, is_par=True, geometry=g).funvals, dtype=float), f)))
+
+
 def jobs(tier):
     J = []
     q = tier == 'quick'
@@ -321,5 +359,7 @@ def jobs(tier):
     for kind in ('Continuous2D', 'Image2D:C', 'Image2D:F', 'Default2D'):
         J.append(Job(f'{kind}:function_values_in_other_memory_layouts', lambda c, k=kind: memory_layouts(c, k), 'B',
                      ['cuqi.geometry._geometry:Continuous2D.fun2par', 'cuqi.geometry._geometry:Image2D.fun2par', 'cuqi.geometry._geometry:Geometry.fun2vec'], nnum=3))
+    for kind in ('KLExpansion_Full', 'CustomKL'):
+        J.append(Job(f'{kind}:forward_only_expansion', lambda c, k=kind: forward_only_expansions(c, k), 'B', F(f'{kind}.par2fun', f'{kind}.fun2par') + ['cuqi.array._array:CUQIarray.funvals'], nnum=3))
     J.append(Job('Mapped:no_inverse_map:fun2par_refused', maps_not_offered, 'Pbox', fn['Mapped'] + ['cuqi.samples._samples:Samples.parameters']))
     return J
